@@ -332,3 +332,33 @@ class SlicePositions(Contract):
 
 
 REGISTRY.append(SlicePositions())
+
+
+class MinBaseMask(Contract):
+    """C02: the minimum-base mask is true exactly where the unweighted base is *below* the
+    threshold (row / column / table direction)"""
+
+    name = "min_base_size_mask:MinBaseSizeMask.row/column/table_mask"
+    props = ("C02",)
+
+    def size_space(self, cfg):
+        return {"N": [0, 1, 2], "M": [0, 1, 2]}
+
+    def run(self, B, cfg):
+        N, M = B.size("N"), B.size("M")
+        size = B.real("size")
+        bases = {d: B.tensor(d + "_unweighted_bases", (N, M), nonneg=True, maybe_nan=True) for d in ("row", "column", "table")}
+        sl = B.stub("slice", **{d + "_unweighted_bases": t for d, t in bases.items()})
+        m = B.new("min_base_size_mask:MinBaseSizeMask", sl, size)
+        for d in ("row", "column", "table"):
+            mask = getattr(m, d + "_mask")
+            B.all_cells(
+                d + "_mask", (N, M),
+                lambda i, j, mask=mask, d=d: B.rd_bool(mask, i, j) == (B.rd(bases[d], i, j) < size),
+            )
+        sl2 = new_slice(B, mask_size=size)
+        mm = sl2.min_base_size_mask
+        B.check("slice-wiring", type(mm).__name__ == "MinBaseSizeMask" and mm._slice is sl2 and mm._size is size)
+
+
+REGISTRY.append(MinBaseMask())
